@@ -85,6 +85,8 @@ theorem handler_partition (cfg : Sim.Cfg K) (wf : WfCfg cfg.comp) (inst ncomp : 
     | rmNode _ _ => simp [targetsB, C01.shippedB] at ha
     | addEdge _ _ _ => simp [targetsB, C01.shippedB] at ha
     | rmEdge _ _ _ => simp [targetsB, C01.shippedB] at ha
+    | adAdd _ _ _ => simp [targetsB, C01.shippedB] at ha
+    | adDel _ _ => simp [targetsB, C01.shippedB] at ha
 
 /-! ### arrows: what a fired event changes -/
 
